@@ -156,6 +156,14 @@ func checkC14(c *Ctx) error {
 				}})
 		}
 	}
+	// a shared parent context that an EARLIER render has written to (a template function, a contentFor block): executions on
+	// child contexts use what it defined, each with its own data
+	const prelude = `<% let deepfn = fn(n) { if (n == 0) { return "ok" } return deepfn(n - 1) } %><% contentFor("shared") { %>[<%= label %>:<%= for (v) in [1, 2] { %><%= label %><% } %>]<% } %>`
+	for _, g := range []int{2, 8} {
+		scenarios = append(scenarios,
+			c14Scenario{Kind: "sharedfn", G: g, Topo: "child", Iters: 4, Src: `<%= deepfn(180) %>|<%= gid %>|<%= deepfn(2) %>`, Parts: map[string]string{"__prelude": prelude}},
+			c14Scenario{Kind: "sharedblock", G: g, Topo: "child", Iters: 40, Src: `<%= contentOf("shared", {label: gid}) %>|<%= gid %>`, Parts: map[string]string{"__prelude": prelude}})
+	}
 	for i := range scenarios {
 		scenarios[i].ID = i
 	}
@@ -292,7 +300,11 @@ func c14RunRace(c *Ctx, scenarios []c14Scenario) error {
 		cas := map[string]interface{}{"scenario": s, "result": r}
 		if rs := races[s.ID]; len(rs) > 0 {
 			cas["race_report"] = trunc(rs[0], 3000)
-			c.Fail("race:"+raceSig(rs[0]), fmt.Sprintf("data race while running %s: %s", c14Desc(s), raceSig(rs[0])), cas)
+			rsig := "race:" + raceSig(rs[0])
+			if s.Kind == "sharedblock" || s.Kind == "sharedfn" {
+				rsig = "race:" + s.Kind + ":" + raceSig(rs[0])
+			}
+			c.Fail(rsig, fmt.Sprintf("data race while running %s: %s", c14Desc(s), raceSig(rs[0])), cas)
 		}
 		if r.Stuck != "" {
 			c.Fail("stuck:"+s.Kind, fmt.Sprintf("%s: did not finish within %s (goroutines blocked)", c14Desc(s), c14ScenarioLimit), map[string]interface{}{"scenario": s, "stacks": trunc(r.Stuck, 4000)})
@@ -505,6 +517,12 @@ func c14RunExec(s c14Scenario) (res c14Result) {
 	var parent *plush.Context
 	if s.Topo == "child" {
 		parent, _ = mkctx(nil)
+		if pre := s.Parts["__prelude"]; pre != "" {
+			if _, err := plush.Render(pre, parent); err != nil {
+				res.Mismatch = "the prelude does not render: " + err.Error()
+				return
+			}
+		}
 	}
 	_ = item
 	type outcome struct{ Out, Err, Calls string }
